@@ -2,6 +2,7 @@ package chk
 
 import (
 	"fmt"
+	"strconv"
 	"go/constant"
 	"go/token"
 	"go/types"
@@ -133,10 +134,24 @@ func (t *Termer) Term(v ssa.Value, ps *pathState) string {
 	case *ssa.MakeInterface:
 		return t.Term(x.X, ps)
 	case *ssa.Alloc:
+		// a range-value copy (`for _, k := range key`) is named after the element it copies
+		if st := singleStore(x); st != nil {
+			if u, ok := st.Val.(*ssa.UnOp); ok && u.Op == token.MUL {
+				if ia, ok := u.X.(*ssa.IndexAddr); ok {
+					return t.Term(ia, ps)
+				}
+			}
+		}
 		if x.Comment != "" {
 			return "local:" + x.Comment
 		}
 		return "alloc:" + x.Name()
+	case *ssa.Lookup:
+		return t.Term(x.X, ps) + "[" + t.Term(x.Index, ps) + "]"
+	case *ssa.MakeClosure:
+		return "closure:" + x.Fn.Name()
+	case *ssa.Function:
+		return "func:" + t.P.FnKey(x)
 	case *ssa.FieldAddr:
 		return t.Term(x.X, ps) + "." + fieldName(x)
 	case *ssa.Field:
@@ -228,6 +243,9 @@ func constString2(c *ssa.Const) string {
 		return fmt.Sprintf("%q", constant.StringVal(c.Value))
 	case constant.Bool:
 		return c.Value.String()
+	case constant.Float:
+		f, _ := constant.Float64Val(c.Value)
+		return strconv.FormatFloat(f, 'g', -1, 64)
 	}
 	return c.Value.String()
 }
@@ -394,6 +412,8 @@ type TabOpts struct {
 	EventOf func(in ssa.Instruction, ps *pathState) (Event, bool)
 	// Assume lists literals taken as given (e.g. the abstract class under evaluation); paths contradicting them are pruned.
 	Assume []Lit
+	// Values fixes SSA values to integers for constant folding (the abstract class under evaluation).
+	Values map[ssa.Value]int64
 	Limit  int
 }
 
@@ -496,7 +516,7 @@ func EnumLits(start *ssa.BasicBlock, idx int, o TabOpts) ([]*LPath, bool) {
 			walk(s, 0, nps, nfr)
 		}
 	}
-	walk(start, idx, &pathState{Cells: map[*ssa.Alloc]ssa.Value{}}, frame{})
+	walk(start, idx, &pathState{Cells: map[*ssa.Alloc]ssa.Value{}, Vals: o.Values}, frame{})
 	return out, !overflow
 }
 
@@ -544,6 +564,9 @@ func sortedStrings(m map[string]bool) []string {
 func evalInt(v ssa.Value, ps *pathState) (int64, bool) {
 	for depth := 0; depth < 8; depth++ {
 		v = ps.Resolve(v)
+		if n, ok := ps.Vals[v]; ok {
+			return n, true
+		}
 		switch x := v.(type) {
 		case *ssa.Const:
 			return constInt(x)
@@ -569,6 +592,18 @@ func evalInt(v ssa.Value, ps *pathState) (int64, bool) {
 			case token.SHL:
 				if b >= 0 && b < 63 {
 					return a << uint(b), true
+				}
+			case token.AND:
+				return a & b, true
+			case token.OR:
+				return a | b, true
+			case token.QUO:
+				if b != 0 {
+					return a / b, true
+				}
+			case token.REM:
+				if b != 0 {
+					return a % b, true
 				}
 			}
 			return 0, false
